@@ -80,6 +80,12 @@ CHECKS.update({
               note="probe document filters registered through the public DocumentFilter mechanism make filter order/multiplicity observable; unknown filter names and unknown keys are not demanded to be rejected (statement/README silent)", ref="3/C19"),
 })
 
+CHECKS.update({
+  "C18": dict(cat="fault_enumeration", tech="deviation-bounded exploration: every single deviation (delete, duplicate, swap, truncate, boundary value, junk) at every token of grammar-generated seeds of the five input formats and of the bundled corpus, double deviations on small seeds, all token strings of length <= 3/4 over each format's token alphabet; allowed-outcome oracle on the reader and on every downstream stage",
+              text="each deviated input is read by the real reader: the outcome must be a document, None after a fatal log record, or ParseError/ValueError/struct.error; every returned document (de-duplicated by shape) is snapshotted at all significant times and midpoints, filtered by LCD (2 configurations), and written by the SRT, VTT and IMSC writers under their configurations without any exception",
+              note="deviation bound completed and caps are stated per family in the evidence; discriminator = exception type at the qualified innermost ttconv frame", ref="3/C18"),
+})
+
 PENDING = {}
 
 
